@@ -520,13 +520,15 @@ func (d *Document) removeTOCEntries(startIndex int) {
 		element := d.Body.Elements[i]
 		if paragraph, ok := element.(*Paragraph); ok {
 			if paragraph.Properties != nil && paragraph.Properties.ParagraphStyle != nil {
-				if !strings.HasPrefix(paragraph.Properties.ParagraphStyle.Val, "TOC") {
-					// 不是TOC样式，保留后续所有元素
-					newElements = append(newElements, d.Body.Elements[i:]...)
-					break
+				if strings.HasPrefix(paragraph.Properties.ParagraphStyle.Val, "TOC") {
+					// TOC样式的段落：目录条目，删除
+					continue
 				}
 			}
 		}
+		// 第一个不是TOC样式段落的元素（无样式的段落、表格等同样如此）：目录到此结束，保留后续所有元素
+		newElements = append(newElements, d.Body.Elements[i:]...)
+		break
 	}
 
 	d.Body.Elements = newElements
@@ -743,7 +745,8 @@ func (d *Document) createWordFieldTOC(config *TOCConfig, entries []TOCEntry) []i
 	// 添加TOC域结束段落
 	endPara := &Paragraph{
 		Properties: &ParagraphProperties{
-			ParagraphStyle: &ParagraphStyle{Val: "2"},
+			// 样式库中没有ID为"2"的样式（悬空引用在Word中按默认段落样式显示），这里引用已定义的默认段落样式
+			ParagraphStyle: &ParagraphStyle{Val: "Normal"},
 			Spacing: &Spacing{
 				Before: "240",
 				After:  "0",
